@@ -25,8 +25,8 @@ RULE = ("(a) all skeletons: construct in {if x{1,2,3 arms} x{else,no else}, matc
         "designs executed with >=1 temporary poisoned.")
 ASSUMPTIONS = ["the back end's declaration table identifies compiler temporaries (they are the poisoned variables)",
                "vsim executes the emitted VHDL faithfully"]
-REQUIRE = {'quick': {'must_reject_rejected': 100, 'accepted_executed': 100, 'poisoned_activations': 10000},
-           'thorough': {'must_reject_rejected': 300, 'accepted_executed': 300, 'poisoned_activations': 100000}}
+REQUIRE = {'quick': {'local_signal_designs': 80, 'must_reject_rejected': 100, 'accepted_executed': 100, 'poisoned_activations': 10000},
+           'thorough': {'local_signal_designs': 80, 'must_reject_rejected': 300, 'accepted_executed': 300, 'poisoned_activations': 100000}}
 
 HEADER = pg.HEADER
 
@@ -81,6 +81,15 @@ def gen_cases(tier, seed):
         # are no substitute for an assignment in the same activation)
         c['defkind'] = 'ref' if rnd.random() < 0.3 else 'value'
         c['zinit'] = rnd.random() < 0.2
+    # (c) signals constructed inside a coroutine (their same-state alias is a compiler-generated variable) and read after awaits
+    for loop in ('none', 'while-cond', 'while-true-break', 'while-cond-if'):
+        for flag in (False, True):
+            for pos in ('before-first-await', 'after-await'):
+                for rd in ('same-state', 'after-await', 'after-two-awaits', 'after-loop'):
+                    for upd in (False, True):
+                        if loop != 'while-true-break' and rd == 'after-loop':
+                            continue        # (the body of a conditional loop may never run: reading `s` behind it is undefined by the source itself)
+                        cases.append({'k': 'localsig', 'loop': loop, 'flag': flag, 'pos': pos, 'rd': rd, 'upd': upd})
     n = 240 if tier == 'quick' else 6000
     for i in range(n):
         cases.append({'k': 'dyn', 'gen': ('c03', 'c01', 'c04')[i % 3], 'seed': seed * 7919 + 104729 + i, 'tier': tier})
@@ -325,7 +334,109 @@ def run_dyn(case):
     return result(sig=sig, viol=viol, cnt=dict(cnt))
 
 
+def run_localsig(case):
+    """a Signal constructed from a run-time value inside a coroutine: reads in the constructing state may go through the
+    compiler's alias variable, reads in later states must not (an alias consumed in another state is a value left over from an
+    earlier activation).  Monitors: poison on the alias, and the `maybe_uninitialized` flag must not change behaviour."""
+    cnt = Counter()
+    viol = []
+    _n[0] += 1
+    loop, pos, rd, upd = case['loop'], case['pos'], case['rd'], case['upd']
+    texts = {}
+    srcs = {}
+    for flag in ((False, True) if not case['flag'] else (True, False)):
+        cname = f"LS{_n[0]}{'F' if flag else 'N'}"
+        B = []
+        ind = 3
+        def emit(x, i=None):
+            B.append('    ' * (ind if i is None else i) + x)
+        if loop != 'none':
+            emit({'while-cond': "while self.a:", 'while-true-break': "while True:", 'while-cond-if': "while self.a | self.b:"}[loop])
+            ind = 4
+        if pos == 'after-await':
+            emit("await self.c")
+        if loop == 'while-cond-if':
+            emit("if self.b:")
+            emit("    await self.c")
+            emit("    self.o1 <<= self.y")
+        emit(f"s = Signal(self.x{', maybe_uninitialized=True' if flag else ''})")
+        if rd == 'same-state':
+            emit("self.o0 <<= s")
+        emit("await self.b")
+        if upd:
+            emit("s <<= s + 1")
+            emit("await self.c")
+        if rd in ('after-await', 'after-two-awaits'):
+            if rd == 'after-two-awaits':
+                emit("await self.a")
+            emit("self.o0 <<= s")
+        if loop == 'while-true-break':
+            emit("if self.c:")
+            emit("    break")
+        if loop != 'none':
+            ind = 3
+        if rd == 'after-loop':
+            emit("self.o1 <<= s")
+        emit("self.o1 <<= self.o1 + 1" if rd != 'after-loop' else "await self.c")
+        L = [HEADER, f"class {cname}(Entity):", "    clk = Port.input(Bit)"]
+        for nme in 'abc':
+            L.append(f"    {nme} = Port.input(Bit)")
+        L += ["    x = Port.input(Unsigned[3])", "    y = Port.input(Unsigned[3])",
+              "    o0 = Port.output(Unsigned[3], default=0)", "    o1 = Port.output(Unsigned[3], default=0)",
+              "    def architecture(self):", "        @std.sequential(std.Clock(self.clk))", "        async def proc():"] + B
+        src = '\n'.join(L) + '\n'
+        srcs[flag] = src
+        mod = load_source(src, 'c08l')
+        try:
+            try:
+                texts[flag] = compile_top(getattr(mod, cname))
+            except Rejected as r:
+                cnt['localsig_rejected' + ('_flag' if flag else '_noflag')] += 1
+                cnt['localsig_rejected:' + r.msg[:40].replace('\n', ' ')] += 1
+        finally:
+            unload(mod)
+    if not texts:
+        return result(cnt=dict(cnt))
+    sims = {}
+    try:
+        for flag, comp in texts.items():
+            sims[flag] = comp.sim(init={'clk': 0, 'a': 0, 'b': 0, 'c': 0, 'x': 0, 'y': 0})
+            sims[flag].events.clear()
+    except Unsupported:
+        return result(cnt={'vsim_unsupported': 1}, inconclusive='vsim unsupported')
+    rnd = random.Random(11)
+    nclk = 0
+    diff = None
+    for t in range(600):
+        a, b, c = (rnd.random() < 0.7), (rnd.random() < 0.6), (rnd.random() < 0.6)
+        x, y = rnd.randrange(8), rnd.randrange(8)
+        for sim in sims.values():
+            sim.set('a', int(a)); sim.set('b', int(b)); sim.set('c', int(c)); sim.set('x', x); sim.set('y', y)
+            sim.clock()
+        nclk += 1
+        if len(sims) == 2 and diff is None:
+            for o in ('o0', 'o1'):
+                if sims[True].get(o) != sims[False].get(o):
+                    diff = (t, o, sims[False].get(o), sims[True].get(o))
+    cnt['poisoned_activations'] += nclk
+    cnt['local_signal_designs'] += 1
+    cls = f"{loop}:{pos}:{rd}{':updated' if upd else ''}"
+    for flag, sim in sims.items():
+        pr = sim.events.get('poison-read', 0)
+        if pr:
+            viol.append(violation(f"poison-read:local-signal-alias:{'maybe_uninitialized' if flag else 'checked'}",
+                                  f"{pr} reads of a compiler-generated variable that was not written in the same activation "
+                                  f"(e.g. {sim.event_samples.get('poison-read')}); shape {cls}", source=srcs[flag], vhdl=texts[flag].text))
+            break
+    if diff and not viol:
+        viol.append(violation('maybe_uninitialized-changes-behaviour', f"shape {cls}: output {diff[1]} at clock {diff[0]} is {diff[2]} without and {diff[3]} with "
+                              f"maybe_uninitialized=True (the flag only disables a check)", source=srcs[True], vhdl=texts[True].text))
+    return result(sig=digest('localsig', case) if not viol else None, viol=viol, cnt=dict(cnt))
+
+
 def run_case(case):
+    if case['k'] == 'localsig':
+        return run_localsig(case)
     if case['k'] == 'place':
         return run_place(case)
     return run_dyn(case)
